@@ -113,3 +113,23 @@ Check C14_mulgen_sound : forall (PR : PrimeR) (ND : NonSquareD) asg jubjub g n,
     sd_val 0 ds = val (asg jubjub) /\
     (asg (fb_wx base 256), asg (fb_wy base 256)) = sd_point ed_id ds (rev (doublings 256 g)).
 Print Assumptions C14_mulgen_sound.
+
+From PlonkV Require Import Composer.InSystem.
+Theorem C14_mulgen_in_system : forall (PR : PrimeR) (ND : NonSquareD) pre post asg jubjub g n,
+  asg W_ZERO = 0 -> on_curve g ->
+  sat (pre ++ mulgen_rows jubjub g n ++ post) asg ->
+  let base := (n + 253)%nat in
+  (val (asg jubjub) < rj)%Z /\
+  exists ds, length ds = 256%nat /\ Forall is_digit ds /\ firstn 3 ds = [0; 0; 0]%Z /\
+    sd_val 0 ds = val (asg jubjub) /\
+    (asg (fb_wx base 256), asg (fb_wy base 256)) = sd_point ed_id ds (rev (doublings 256 g)).
+Proof. exact @mulgen_sound_in_system. Qed.
+Check C14_mulgen_in_system : forall (PR : PrimeR) (ND : NonSquareD) pre post asg jubjub g n,
+  asg W_ZERO = 0 -> on_curve g ->
+  sat (pre ++ mulgen_rows jubjub g n ++ post) asg ->
+  let base := (n + 253)%nat in
+  (val (asg jubjub) < rj)%Z /\
+  exists ds, length ds = 256%nat /\ Forall is_digit ds /\ firstn 3 ds = [0; 0; 0]%Z /\
+    sd_val 0 ds = val (asg jubjub) /\
+    (asg (fb_wx base 256), asg (fb_wy base 256)) = sd_point ed_id ds (rev (doublings 256 g)).
+Print Assumptions C14_mulgen_in_system.
